@@ -19,7 +19,7 @@ LEVEL_TEXT = ("For each of the 16 operation variants and each step of its exchan
               "generic responses must report success iff the last reply was non-empty; an empty login reply must make state "
               "queries and all type-2 operations raise RuntimeError with exactly one frame on the wire. The prefix x step grid "
               "is enumerated completely; garbage is sampled.")
-RULE = ("case = (operation, step of the exchange, fault reply); fault alphabet {EOF, one empty read while the stream goes on, the request echoed back, prefix of length 1..len-1, pattern bytes "
+RULE = ("case = (operation, step of the exchange, fault reply); fault alphabet {EOF, one empty read while the stream goes on, the request echoed back, NUL bytes only, prefix of length 1..len-1, pattern bytes "
         "of length 1..1024, single corrupted field}; non-trivial = fault other than EOF, or EOF at a step > 1; distinct by "
         "(kind, step, fault)."
         ' Cases optionally run 0..3 good operations on the same connection first, carry a virtual clock up to 2^32 s, and the fault alphabet includes the request echoed back. slow-device: every step of every state query answered correctly but 6 s .. 25 h late (harness-owned event-loop clock), with and without retries; repeated-empty-login: 70 (thorough 300) consecutive empty login replies for one device id in one process, for every state query and type-2 operation.')
@@ -75,6 +75,8 @@ def apply_fault(valid, fault, rk):
         return valid[:fault["n"]]
     if t == "pattern":
         return pattern(fault["len"], fault["seed"])
+    if t == "zeros":
+        return bytes(fault["len"])            # a non-empty reply made of NUL bytes only
     if t == "echo":
         return b"<the request itself>"
     if t == "slow":
@@ -323,6 +325,8 @@ def cases_grid(tier):
                 out.append({"kind": kind, "args": a, "step": step, "fault": {"type": "eof"}})
                 out.append({"kind": kind, "args": a, "step": step, "fault": {"type": "empty-read"}})
                 out.append({"kind": kind, "args": a, "step": step, "fault": {"type": "echo"}, "ts": 2 ** 31 + 5000 + step})
+                for zl in (1, 48, len(script[step]["data"])):
+                    out.append({"kind": kind, "args": a, "step": step, "fault": {"type": "zeros", "len": zl}})
                 pre = ["get_state", "control_on"] if ops.api_type(kind) == 1 else ["get_shutter_state", "set_position"]
                 out.append({"kind": kind, "args": a, "step": step, "fault": {"type": "eof"}, "pre": pre[:1], "retries": 2})
                 out.append({"kind": kind, "args": a, "step": step, "fault": {"type": "empty-read"}, "pre": pre})
@@ -346,6 +350,7 @@ def strat_garbage():
         fault = st.one_of(
             st.tuples(lens, st.integers(0, 10 ** 9)).map(lambda t: {"type": "pattern", "len": t[0], "seed": t[1]}),
             st.just({"type": "eof"}),
+            st.sampled_from([1, 2, 4, 12, 44, 48, 100, 109, 1024]).map(lambda n: {"type": "zeros", "len": n}),
             st.just({"type": "empty-read"}),
             st.just({"type": "echo"}),
             st.integers(0, 5).map(lambda i: {"type": "corrupt", "index": i}),
